@@ -312,6 +312,9 @@ PROPS["C08"] = {
     "level_text": "Deductive proof for every list of coin spends (any reveals, any u64 amounts): the predicted generator length equals the serialized length of the quoted spend list, 5 + sum(39 + |puzzle| + ser_len(canon(amount)) + |solution|) as derived from the serialisation format, and the quote-wrapper overhead is exactly 2 bytes.",
     "level_note": "Unit drivers: calculate_base_cost is proved to charge the serialized length without the 2-byte quote wrapper (interned virtual bytes under INTERNED_GENERATOR, whatever the number of spends), run_spendbundle to hand the parser (parent id, canonical amount) for every coin and to report size + execution + condition cost. Agreement of the two paths over generators built from the bundle needs CLVM execution: decided on 224 ground comparisons (28 bundles: coin amounts at every canonical-length boundary, 0/1/2/5 spends, rejected bundles) x plain / back-reference / builder generators x with and without INTERNED_GENERATOR: same verdict, same conditions, cost offset exactly the quote overhead, predicted length == emitted length.",
     "components": [V("generator_len"), V("int_encoders"), V("drivers"), N("native_paths_ground", "paths_ground"),
+                   # the one step only the mempool path takes after a spend is parsed: the puzzle fingerprint (its verdict is
+                   # run_spendbundle's verdict when COMPUTE_FINGERPRINT is set)
+                   V("fingerprint"),
                    # the builders produce generators too: what they emit must validate like the bundles they were given (the
                    # running-estimate clause of a fresh builder is C10's statement and is reported there)
                    V("builders"), V("builders_interned"), N("native_builders_ground", "builders_ground", thorough_task="builders_ground:thorough", exclude_id=r"/fresh-estimate$")],
